@@ -228,6 +228,11 @@ func (hash *SexpHash) HashGetDefault(env *Zlisp, key Sexp, defaultval Sexp) (Sex
 	if arr, isArray := key.(*SexpArray); isArray && len(arr.Val) == 1 {
 		key = arr.Val[0] // same key normalization as HashSet: h[6]
 	}
+	if env == nil {
+		// internal lookups come without an interpreter; keys are compared
+		// under the hash's own, which bounds the depth of the comparison
+		env = hash.Env
+	}
 	hashval, err := HashExpression(env, key)
 	if err != nil {
 		return SexpNull, err
